@@ -45,7 +45,7 @@ WARMUP = ("o_t.open();\no_t.client_message(\"abc\");\no_t.server_message(\"defg\
           "o_i.echo(\"p\");\no_i.echo_reply(\"p\");\no_g.fragment(0, 1);\no_v.encap(v_pkt);\no_r.encap(v_pkt);\n"
           "o_1.encap(v_pkt);\no_2.encap(v_pkt);\no_b.read(4);\n")
 VALUES = {
-    "bool": ["true", "false"], "int": ["0", "255", "256", "65535", "65536", "4294967296", "18446744073709551615", "0x10"],
+    "bool": ["true", "false"], "int": ["0", "255", "256", "65535", "65536", "4294967296", "18446744073709551615", "0x10", "0X10", "0xFFFFFFFFFFFFFFFFF"],
     "str": ['""', '"x"', '"|ff 00|"', '"0123456789012345678901234567890123456789012345678901234567890123456789"'],
     "ip": ["1.2.3.4", "255.255.255.255"], "sock": ["1.2.3.4:5", "0.0.0.0/0"],
     "obj": ["o_t", "o_u", "o_g", "o_b"], "func": ["ipv4::tcp::flow", "text::concat"], "method": ["o_t.open"],
@@ -154,7 +154,7 @@ def byte_cases(ctx, valid):
     out = []
     n = 1500 if ctx.thorough else 250
     toks = ["import", "let", "true", "false", "x", "ipv4", "(", ")", ".", "::", ":", ";", "=", ",", "/", "1.2.3.4", "\"s\"", "0x1f",
-            "42", "-1", "#c", "//c", "\n", " ", "\t", "\"", "|", "é", " ", "$", "\r"]
+            "42", "-1", "0X1f", "0XAB", "0x", "1.2.3.04", "#c", "//c", "\n", " ", "\t", "\"", "|", "é", " ", "$", "\r"]
     for i in range(n):
         k = r.random()
         if k < 0.25:
